@@ -51,6 +51,7 @@ def run(ctx: Context) -> None:
     ctx.rule("C02d", "every sampled component has its own draw: no draw result is stored under a data-dependent key (memoised randomness makes components with equal keys perfectly correlated)")
     clause_d(ctx, idx)
     clause_f_axes(ctx)
+    clause_g_position_weights(ctx)
 
 
 def clause_c_order(ctx: Context, idx, res) -> None:
@@ -539,3 +540,79 @@ def clause_f_axes(ctx: Context) -> None:
                                 report(x, x.comparators[0].id, (pm, ax), "is the bound tested for an index that is used")
     ctx.require_floor("C02f sizes read from an axis of a matrix parameter", n_sizes, 3)
     ctx.require_floor("C02f uses of such sizes along an axis of the same matrix", n_uses, 3)
+
+
+def clause_g_position_weights(ctx: Context) -> None:
+    """Pure-Fock homodyne on several modes conditions the next mode on the positions already drawn: rho' = sum rho[n, m] <x|n><m|x> ...  with
+    <x|n> = H_n(x) exp(-x^2 / 2) / sqrt(2^n n! sqrt(pi)).  The factors common to all n cancel in the normalisation of rho', the factor
+    1 / sqrt(2^n n!) does not: the weight stored for the Hermite index n must carry a normaliser that depends on n."""
+    ctx.rule("C02g", "the position-eigenfunction weights used to condition the next mode in the multi-mode pure-Fock homodyne sampler are "
+                     "H_n(x) / sqrt(2^n n!): the stored value depends on the Hermite index through a normaliser, not only through the polynomial")
+    idx = get_index(ctx.repo)
+    m = idx.module("piquasso._simulators.fock.pure.simulation_steps.homodyne")
+
+    def weights_without_normaliser(fn_node: ast.AST) -> List[ast.AST]:
+        out = []
+        for lp in ast.walk(fn_node):
+            if not (isinstance(lp, ast.For) and isinstance(lp.target, ast.Name)):
+                continue
+            n_var = lp.target.id
+            # scalars that vary with the Hermite index: updated in the loop body from the index or from themselves
+            varying = {n_var}
+            changed = True
+            while changed:
+                changed = False
+                for a in ast.walk(lp):
+                    tg = None
+                    if isinstance(a, ast.AugAssign) and isinstance(a.target, ast.Name):
+                        tg, val = a.target.id, a.value
+                        used = {x.id for x in ast.walk(val) if isinstance(x, ast.Name)} | {tg}
+                    elif isinstance(a, ast.Assign) and len(a.targets) == 1 and isinstance(a.targets[0], ast.Name):
+                        tg, val = a.targets[0].id, a.value
+                        used = {x.id for x in ast.walk(val) if isinstance(x, ast.Name)}
+                    if tg and tg not in varying and used & varying and not any(isinstance(x, ast.Subscript) for x in ast.walk(val)):
+                        varying.add(tg)
+                        changed = True
+            for a in ast.walk(lp):
+                if isinstance(a, ast.Assign) and len(a.targets) == 1 and isinstance(a.targets[0], ast.Subscript) \
+                        and any(isinstance(c, ast.Call) and (dotted(c.func) or "").split(".")[-1] == "polyeval" for c in ast.walk(a.value)) \
+                        and isinstance(a.targets[0].slice, ast.Tuple) and isinstance(a.targets[0].slice.elts[0], ast.Name) \
+                        and a.targets[0].slice.elts[0].id == n_var:
+                    # the value outside the polynomial evaluation
+                    outside = set()
+
+                    def rec(e):
+                        if isinstance(e, ast.Call) and (dotted(e.func) or "").split(".")[-1] == "polyeval":
+                            return
+                        if isinstance(e, ast.Name):
+                            outside.add(e.id)
+                        for c_ in ast.iter_child_nodes(e):
+                            rec(c_)
+                    rec(a.value)
+                    if not (outside & (varying - set())) or not any(isinstance(b, ast.BinOp) and isinstance(b.op, (ast.Div, ast.Mult)) for b in ast.walk(a.value)):
+                        out.append(a)
+        return out
+
+    fx = ast.parse("def bad(h, pos, cutoff, vals):\n    for idx in range(cutoff):\n        c = h[idx]\n        for j in range(2):\n            vals[idx, j] = polyeval(c, pos[j])\n"
+                   "def good(h, pos, cutoff, vals):\n    nrm = 1.0\n    for idx in range(cutoff):\n        if idx > 0:\n            nrm *= np.sqrt(2.0 * idx)\n        c = h[idx]\n"
+                   "        for j in range(2):\n            vals[idx, j] = polyeval(c, pos[j]) / nrm\n")
+    if [len(weights_without_normaliser(f_)) for f_ in fx.body] != [1, 0]:
+        raise AnalysisError("C02g: the rule does not behave on its inline fixture")
+    n = 0
+    for fn in m.functions.values():
+        stores = [a for lp in ast.walk(fn.node) if isinstance(lp, ast.For) for a in ast.walk(lp)
+                  if isinstance(a, ast.Assign) and len(a.targets) == 1 and isinstance(a.targets[0], ast.Subscript)
+                  and any(isinstance(c, ast.Call) and (dotted(c.func) or "").split(".")[-1] == "polyeval" for c in ast.walk(a.value))]
+        if not stores:
+            continue
+        n += 1
+        bad = weights_without_normaliser(fn.node)
+        key = f"{fn.qualname}|position eigenfunction weight carries the normaliser of the Hermite index"
+        ctx.obligation("C02g", key, not bad, f"{ctx.relpath(fn.file)}:{fn.line}")
+        for a in bad[:1]:
+            ctx.violation("C02g", key, fn.file, a.lineno,
+                          f"`{norm(a)[:90]}` stores H_n(x) as the weight of the Fock index n when the next mode is conditioned on the positions "
+                          f"already drawn; <x|n> is H_n(x) / sqrt(2^n n!) (times factors common to all n), so high photon numbers are over-weighted and "
+                          f"every mode after the first one is sampled from a wrong conditional state (mean and variance of the second mode of a "
+                          f"two-mode homodyne measurement disagree with the state)", norm(a)[:100])
+    ctx.require_floor("C02g functions storing Hermite values per Fock index", n, 1)
